@@ -11,7 +11,7 @@ import (
 // flushes, clean restarts and crashes, at reduced capacities so that trees of
 // three and four levels appear within a few dozen rows).
 
-var fullAlpha = alphaOpt{Tables: []string{"t1", "t2", "t3"}, Inserts: []int{1, 4, 9}, BigInsert: true, NullInsert: true, EmptyInsert: true, Updates: true, Deletes: true}
+var fullAlpha = alphaOpt{Tables: []string{"t1", "t2", "t3"}, Inserts: []int{1, 4, 9}, BigInsert: true, NullInsert: true, EmptyInsert: true, FailingInsert: true, Updates: true, Deletes: true}
 var twoAlpha = alphaOpt{Tables: []string{"t1", "t2"}, Inserts: []int{1, 9}, BigInsert: false, Updates: true, Deletes: true}
 
 func init() {
